@@ -9,6 +9,7 @@ The canned results are only there to let each operation run to its end (so that 
 statements are issued); nothing is concluded from them.
 """
 import logging
+import sys
 
 
 class _CannedDict(dict):
@@ -94,7 +95,9 @@ class FakeSession:
     def run(self, text, parameters=None, **kw):
         params = dict(parameters or {})
         params.update(kw)
+        fr = sys._getframe(1)
         self.d.log.append((text, params))
+        self.d.where.append((fr.f_code.co_filename, fr.f_lineno, fr.f_code.co_qualname))
         canned = self.d.canned
         if callable(canned):
             canned = canned(text, params)
@@ -114,6 +117,7 @@ class FakeSession:
 class FakeDriver:
     def __init__(self, canned=None):
         self.log = []
+        self.where = []      # (file, line, function) of the backend frame that called run(), parallel to log
         self.canned = canned or {}
 
     def session(self, **kw):
@@ -127,6 +131,7 @@ class FakeDriver:
 
     def take(self):
         out, self.log = self.log, []
+        self.last_where, self.where = self.where, []
         return out
 
 
